@@ -1,3 +1,5 @@
+pub mod gen_inst;
+pub mod inst;
 pub mod time;
 pub mod wire;
 
